@@ -126,6 +126,48 @@ theorem dgram_cut (bs : List Buf) (ctl : Buf) (d name : Bytes) (nameLen : Nat) (
   · simp only [c, tr, kDgram]
     by_cases h : totalCap bs < d.length <;> simp [h]
 
+
+/-- `recv_from`: the byte result is that of `recv`, the source address is handed through
+(`Some` iff the kernel reported a name length) -/
+theorem recv_from_exact (b : Buf) (w : Bytes) (c : Comp) (hwf : b.WF') (hw : w.length ≤ b.cap)
+    (hn : c.n = w.length) :
+    ∃ b', mapRecvFrom c (b.write w) = .ok ((w.length, intoAddr c), b') ∧
+      b'.vis.take w.length = w ∧ b'.len = max b.len w.length ∧ b'.cap = b.cap := by
+  obtain ⟨b', e, h1, h2, h3, _⟩ := recv_single_exact b w hwf hw
+  refine ⟨b', ?_, h1, h2, h3⟩
+  unfold mapRecv at e
+  unfold mapRecvFrom
+  rw [hn]
+  cases h : advanceTo (b.write w) w.length with
+  | ok x => rw [h] at e; simp [Res.bind] at e ⊢; exact e
+  | panic => rw [h] at e; simp [Res.bind] at e
+  | ub => rw [h] at e; simp [Res.bind] at e
+
+/-- `recv_msg*`: payload as in `recv_vectored_exact`; the control buffer shows exactly the control
+bytes the kernel wrote (`msg_controllen` of them); address and `msg_flags` are handed through
+unchanged — in particular `MSG_TRUNC` / `MSG_CTRUNC` reach the caller -/
+theorem recv_msg_exact (bs : List Buf) (ctl : Buf) (w cw : Bytes) (c : Comp)
+    (hwf : ∀ b ∈ bs, b.WF') (hcwf : ctl.WF') (hw : w.length ≤ totalCap bs) (hcw : cw.length ≤ ctl.cap)
+    (hg : w.length > totalLen bs ∨ covers bs w.length = true)
+    (hn : c.n = w.length) (hc : c.ctlLen = cw.length) :
+    ∃ bs' ctl', mapRecvMsg c (scatter bs w) (ctl.write cw)
+        = .ok ((w.length, cw.length, intoAddr c, c.flags), (bs', ctl')) ∧
+      seen bs' w.length = w ∧ ctl'.vis.take cw.length = cw ∧ ctl'.len = max ctl.len cw.length := by
+  obtain ⟨bs', e, s, _⟩ := recv_vectored_exact bs w hwf hw hg
+  have e' : advanceVecTo (scatter bs w) w.length = .ok bs' := by
+    unfold mapRecvVectored at e
+    cases h : advanceVecTo (scatter bs w) w.length with
+    | ok x => simp [h, Res.bind] at e; rw [e]
+    | panic => simp [h, Res.bind] at e
+    | ub => simp [h, Res.bind] at e
+  have ec := advanceTo_write ctl cw hcwf hcw
+  refine ⟨bs', { ctl.write cw with len := max ctl.len cw.length }, ?_, s, ?_, rfl⟩
+  · simp [mapRecvMsg, hn, hc, e', ec, Res.bind]
+  · simp only [Buf.vis, Buf.write]
+    rw [List.take_take]
+    have : min cw.length (max ctl.len cw.length) = cw.length := by omega
+    rw [this]; simp
+
 /-- the clamp table: when the receive call returns at most the capacity (always, unless the caller
 passes `MSG_TRUNC` as a receive flag — compio-net never does) every flavour on every driver reports
 exactly that value -/
@@ -158,6 +200,18 @@ theorem managed_exact (cap : Nat) (w : Bytes) (hw : w.length ≤ cap) :
   by_cases h : w.length = 0
   · simp [h]
   · simp [h, pool_write_advance cap w hw]
+
+/-- `recv_msg_managed`: `Ok(None)` iff 0 bytes; otherwise pool buffer = received bytes, control buffer
+advanced by the control length, address and flags handed through -/
+theorem managed_msg_exact (cap : Nat) (w cw : Bytes) (ctl : Buf) (c : Comp) (hw : w.length ≤ cap)
+    (hcwf : ctl.WF') (hcw : cw.length ≤ ctl.cap) (hn : c.n = w.length) (hc : c.ctlLen = cw.length)
+    (hne : w.length ≠ 0) :
+    takeBufferMsg c (some ((Buf.poolOf cap).write w)) (ctl.write cw) =
+      .some (⟨.pool, w, w.length, cap⟩, { ctl.write cw with len := max ctl.len cw.length }, intoAddr c, c.flags) := by
+  unfold takeBufferMsg
+  rw [hn, managed_exact cap w hw, if_neg hne]
+  simp only
+  rw [hc, advanceTo_write ctl cw hcwf hcw]
 
 /-- the address is extracted iff the kernel reported a name length -/
 theorem intoAddr_spec (c : Comp) :
@@ -340,6 +394,16 @@ theorem sm_drains (s : SM) (hst : s.st ≠ .finished) (c : Cqe) (ht : s.term = s
     (s.run (List.replicate (s.queue.length + 1) .poll)).1 = (s.queue ++ [c]).map some ∧
       (s.run (List.replicate (s.queue.length + 1) .poll)).2.st = .finished :=
   drain_all s hst c ht
+
+/-- the bridge to the await form: with completions filed the way the driver files them (`SM.WF`, an
+invariant of `arrive`), `inner.is_terminated()` after a returned completion holds exactly when that
+completion carried no `IORING_CQE_F_MORE` — `Managed.next` branches on `c.more` for this reason. -/
+theorem sm_terminated_iff_no_more (s s' : SM) (c : Cqe) (h : s.WF) (hst : s.st ≠ .finished)
+    (hp : s.poll = (.ready (some c), s')) : (s'.st = .finished ↔ c.more = false) ∧ s'.WF :=
+  poll_terminated_iff s s' c h hst hp
+
+theorem sm_wf_invariant (script : List Cqe) : (SM.new script).WF ∧ ∀ s : SM, s.WF → s.arrive.WF :=
+  ⟨wf_new script, wf_arrive⟩
 
 /-- `SubmitMultiStream` consumes the live submission one completion per `next`; the token is
 determined by that completion alone (`tokOf`), a terminal completion takes the op. -/
